@@ -81,10 +81,11 @@ type Conn struct {
 	RFinSeq   uint64
 	RFinAt    time.Duration
 	// corebgp -> remote
-	Out       []byte
-	Frames    []Frame
-	parsed    int
-	Malformed string // first framing fault in the outbound stream (sticky)
+	Out         []byte
+	Frames      []Frame
+	parsed      int
+	EOFWithData bool   // Read hands out the last bytes together with io.EOF
+	Malformed   string // first framing fault in the outbound stream (sticky)
 	// back-pressure (the remote stops reading)
 	writing     bool
 	wStalled    bool
@@ -151,6 +152,13 @@ func (c *Conn) Read(b []byte) (int, error) {
 			n := copy(b, c.rbuf)
 			c.rbuf = c.rbuf[n:]
 			c.Consumed += n
+			if c.EOFWithData && len(c.rbuf) == 0 && c.rFIN && !c.rRST {
+				// legal for an io.Reader (not what a TCP socket does): the last bytes come
+				// together with the end of the stream
+				c.mu.Unlock()
+				c.w.Fault("read-returns-data-with-eof")
+				return n, io.EOF
+			}
 			c.mu.Unlock()
 			return n, nil
 		}
@@ -855,6 +863,7 @@ func newNet(w *World) *Net {
 func (n *Net) newConn(inbound bool, l, r Addr, s *Site) *Conn {
 	n.mu.Lock()
 	c := &Conn{w: n.w, ID: len(n.Conns), Inbound: inbound, LAddr: l, RAddr: r, Site: s, CreatedAt: n.w.Now()}
+	c.EOFWithData = n.w.Draw(4, "eof-with-data") == 3
 	n.Conns = append(n.Conns, c)
 	if s != nil {
 		s.Conns = append(s.Conns, c)
@@ -940,7 +949,7 @@ func (n *Net) dial(ctx context.Context, d *net.Dialer, network, address string) 
 	default:
 	}
 	if site == nil {
-		return n.dialRet(rec, nil, errRefused, "refused")
+		return n.dialRet(rec, nil, n.dialErr(), "refused")
 	}
 	if site.DialPolicy != nil {
 		switch site.DialPolicy(rec) {
@@ -974,7 +983,34 @@ func (n *Net) dial(ctx context.Context, d *net.Dialer, network, address string) 
 		c.Handed = true
 		return n.dialRet(rec, c, nil, "conn")
 	}
-	return n.dialRet(rec, nil, errRefused, "refused")
+	return n.dialRet(rec, nil, n.dialErr(), "refused")
+}
+
+type timeoutErr struct{}
+
+func (timeoutErr) Error() string   { return "i/o timeout" }
+func (timeoutErr) Timeout() bool   { return true }
+func (timeoutErr) Temporary() bool { return true }
+
+// dialErr is the error of an attempt that fails without a connection: mostly
+// "connection refused", sometimes one of the other errors a dial meets (no
+// route, address not available, timeout). To corebgp they are all a failed attempt.
+func (n *Net) dialErr() error {
+	switch n.w.Draw(8, "dialerr") {
+	case 4:
+		n.w.Fault("dial-error:enetunreach")
+		return &net.OpError{Op: "dial", Net: "tcp", Err: syscall.ENETUNREACH}
+	case 5:
+		n.w.Fault("dial-error:eaddrnotavail")
+		return &net.OpError{Op: "dial", Net: "tcp", Err: syscall.EADDRNOTAVAIL}
+	case 6:
+		n.w.Fault("dial-error:ehostunreach")
+		return &net.OpError{Op: "dial", Net: "tcp", Err: syscall.EHOSTUNREACH}
+	case 7:
+		n.w.Fault("dial-error:timeout")
+		return &net.OpError{Op: "dial", Net: "tcp", Err: timeoutErr{}}
+	}
+	return errRefused
 }
 
 func (n *Net) dialRet(rec *DialRec, c *Conn, err error, outcome string) (net.Conn, error) {
